@@ -9,6 +9,7 @@ open SamVerif.Useful
 mutual
 theorem isOne_sound : ∀ (c : Code) (v : Val) (b : Bool), c.isOne = true → evalCode c v = some b → b = true
   | .one, _, b, _, h => by simp [evalCode] at h; exact h
+  | .bind _, _, b, _, h => by simp [evalCode] at h; exact h
   | .zero, _, _, h, _ => by simp [Code.isOne] at h
   | .struct fs, v, b, h1, h => by
     simp only [Code.isOne] at h1
@@ -151,13 +152,12 @@ theorem cpatTys_length (sig : Sig) : ∀ (es : List CPat) (tys : List Nat), cpat
 
 mutual
 theorem lowerPat_correct (sig : Sig) : ∀ (p : CPat) (t : Nat) (v : Val),
-    cpatTy sig p t = true → noDupFields p = true → hasTy sig v t = true →
+    cpatTy sig p t = true → hasTy sig v t = true →
     evalCode (lowerPat p) v = some (pmatch (absOf p) v)
-  | .id, _, _, _, _, _ => by simp [lowerPat, absOf, evalCode, pmatch]
-  | .wild, _, _, _, _, _ => by simp [lowerPat, absOf, evalCode, pmatch]
-  | .tuple n es, t, v, hty, hnd, hv => by
+  | .id _, _, _, _, _ => by simp [lowerPat, absOf, evalCode, pmatch]
+  | .wild, _, _, _, _ => by simp [lowerPat, absOf, evalCode, pmatch]
+  | .tuple n es, t, v, hty, hv => by
     simp only [cpatTy] at hty
-    simp only [noDupFields] at hnd
     cases hs : sig t with
     | prim => simp [hs] at hty
     | enum cls vs => simp [hs] at hty
@@ -171,17 +171,17 @@ theorem lowerPat_correct (sig : Sig) : ∀ (p : CPat) (t : Nat) (v : Val),
         | some c => simp at hv
         | none =>
           simp only at hv
-          have := lowerElems_correct sig es (fs.map (fun f => f.2)) [] ws hty.2 hnd hv
+          have := lowerElems_correct sig es (fs.map (fun f => f.2)) [] ws hty.2 hv
           simp only [List.length_nil, List.nil_append] at this
           simp [lowerPat, absOf, evalCode, pmatch, this]
-  | .object n orders es, t, v, hty, hnd, hv => by
+  | .object n orders es, t, v, hty, hv => by
     simp only [cpatTy] at hty
-    simp only [noDupFields, Bool.and_eq_true] at hnd
     cases hs : sig t with
     | prim => simp [hs] at hty
     | enum cls vs => simp [hs] at hty
     | struct fs =>
       simp only [hs, Bool.and_eq_true, decide_eq_true_eq] at hty
+      obtain ⟨⟨hn, hnd⟩, hobj⟩ := hty
       cases v with
       | prim k => simp [hasTy, hs] at hv
       | con c ws =>
@@ -191,23 +191,22 @@ theorem lowerPat_correct (sig : Sig) : ∀ (p : CPat) (t : Nat) (v : Val),
         | none =>
           simp only at hv
           have hlen : ws.length = n := by
-            rw [hasTys_len sig ws _ hv, hty.1]; simp
+            rw [hasTys_len sig ws _ hv, hn]; simp
           have hacc : (wilds n).length = ws.length := by simp [wilds, hlen]
           have hw : ∀ o ∈ orders, (wilds n)[o]? = some Pat.wild := by
             intro o ho
-            have ho' := cobjTy_lt sig (fs.map (fun f => f.2)) orders es hty.2 o ho
+            have ho' := cobjTy_lt sig (fs.map (fun f => f.2)) orders es hobj o ho
             simp only [List.length_map] at ho'
             simp only [wilds]
             rw [List.getElem?_replicate]
-            simp [hty.1, ho']
+            simp [hn, ho']
           obtain ⟨b, hb, hm⟩ := lowerObj_correct sig orders es (fs.map (fun f => f.2)) ws (wilds n)
-            hty.2 hnd.1 hnd.2 hv hacc hw
+            hobj hnd hv hacc hw
           have hwild : pmatchAll (wilds n) ws = true := by
             rw [← hlen]; exact pmatchAll_wilds' ws
           simp [lowerPat, absOf, evalCode, pmatch, hb, hm, hwild]
-  | .variant c args, t, v, hty, hnd, hv => by
+  | .variant c args, t, v, hty, hv => by
     simp only [cpatTy] at hty
-    simp only [noDupFields] at hnd
     cases hc : ctorFields sig t (some c) with
     | none => simp [hc] at hty
     | some tys =>
@@ -229,35 +228,33 @@ theorem lowerPat_correct (sig : Sig) : ∀ (p : CPat) (t : Nat) (v : Val),
             simp only [hc] at hv
             have hl : args.length ≤ ws.length := by
               rw [cpatTys_length sig args tys hty, hasTys_len sig ws tys hv]; exact Nat.le_refl _
-            have := lowerElems_correct sig args tys [] ws hty hnd hv
+            have := lowerElems_correct sig args tys [] ws hty hv
             simp only [List.length_nil, List.nil_append] at this
             simp [lowerPat, absOf, evalCode, pmatch, hl, this]
           · have hne : ¬ (c = c'') := fun h => hcc h.symm
             simp [lowerPat, absOf, evalCode, pmatch, hcc, hne]
-  | .or ps, t, v, hty, hnd, hv => by
+  | .or ps, t, v, hty, hv => by
     simp only [cpatTy] at hty
-    simp only [noDupFields] at hnd
     simp only [lowerPat, absOf, pmatch_mkOr]
-    exact lowerOr_correct sig ps t v hty hnd hv
+    exact lowerOr_correct sig ps t v hty hv
 theorem lowerElems_correct (sig : Sig) : ∀ (es : List CPat) (tys : List Nat) (pre ws : List Val),
-    cpatTys sig es tys = true → noDupFieldsL es = true → hasTys sig ws tys = true →
+    cpatTys sig es tys = true → hasTys sig ws tys = true →
     evalFields (lowerElems es pre.length) (pre ++ ws) = some (pmatchAll (absAll es) ws)
-  | [], [], pre, ws, _, _, hv => by
+  | [], [], pre, ws, _, hv => by
     cases ws with
     | nil => simp [lowerElems, evalFields, absAll, pmatchAll]
     | cons w ws => simp [hasTys] at hv
-  | [], _ :: _, _, _, h, _, _ => by simp [cpatTys] at h
-  | _ :: _, [], _, _, h, _, _ => by simp [cpatTys] at h
-  | p :: ps, t :: ts, pre, ws, hty, hnd, hv => by
+  | [], _ :: _, _, _, h, _ => by simp [cpatTys] at h
+  | _ :: _, [], _, _, h, _ => by simp [cpatTys] at h
+  | p :: ps, t :: ts, pre, ws, hty, hv => by
     simp only [cpatTys, Bool.and_eq_true] at hty
-    simp only [noDupFieldsL, Bool.and_eq_true] at hnd
     cases ws with
     | nil => simp [hasTys] at hv
     | cons w ws =>
       simp only [hasTys, Bool.and_eq_true] at hv
-      have hp := lowerPat_correct sig p t w hty.1 hnd.1 hv.1
+      have hp := lowerPat_correct sig p t w hty.1 hv.1
       have hx : (pre ++ w :: ws)[pre.length]? = some w := by simp
-      have hrest := lowerElems_correct sig ps ts (pre ++ [w]) ws hty.2 hnd.2 hv.2
+      have hrest := lowerElems_correct sig ps ts (pre ++ [w]) ws hty.2 hv.2
       simp only [List.length_append, List.length_cons, List.length_nil, Nat.zero_add,
         List.append_assoc, List.cons_append, List.nil_append] at hrest
       simp only [lowerElems, absAll, pmatchAll]
@@ -265,23 +262,22 @@ theorem lowerElems_correct (sig : Sig) : ∀ (es : List CPat) (tys : List Nat) (
       cases pmatch (absOf p) w <;> simp
 theorem lowerObj_correct (sig : Sig) : ∀ (orders : List Nat) (es : List CPat) (tys : List Nat)
     (vs : List Val) (acc : List Pat),
-    cobjTy sig tys orders es = true → nodupNat orders = true → noDupFieldsL es = true →
+    cobjTy sig tys orders es = true → nodupNat orders = true →
     hasTys sig vs tys = true → acc.length = vs.length → (∀ o ∈ orders, acc[o]? = some Pat.wild) →
     ∃ b, evalFields (lowerObj orders es) vs = some b ∧
       pmatchAll (absObj orders es acc) vs = (pmatchAll acc vs && b)
-  | [], [], _, _, _, _, _, _, _, _, _ => ⟨true, by simp [lowerObj, evalFields], by simp [absObj]⟩
-  | [], _ :: _, _, _, _, h, _, _, _, _, _ => by simp [cobjTy] at h
-  | _ :: _, [], _, _, _, h, _, _, _, _, _ => by simp [cobjTy] at h
-  | o :: orders, p :: es, tys, vs, acc, hty, hnd, hnds, hv, hl, hw => by
+  | [], [], _, _, _, _, _, _, _, _ => ⟨true, by simp [lowerObj, evalFields], by simp [absObj]⟩
+  | [], _ :: _, _, _, _, h, _, _, _, _ => by simp [cobjTy] at h
+  | _ :: _, [], _, _, _, h, _, _, _, _ => by simp [cobjTy] at h
+  | o :: orders, p :: es, tys, vs, acc, hty, hnd, hv, hl, hw => by
     simp only [cobjTy, Bool.and_eq_true] at hty
-    simp only [noDupFieldsL, Bool.and_eq_true] at hnds
     obtain ⟨hno, hnd'⟩ := nodup_cons o orders hnd
     cases hto : tys[o]? with
     | none => simp [hto] at hty
     | some t =>
       simp only [hto] at hty
       obtain ⟨x, hx, hxt⟩ := hasTys_getElem sig vs tys o t hv hto
-      have hp := lowerPat_correct sig p t x hty.1 hnds.1 hxt
+      have hp := lowerPat_correct sig p t x hty.1 hxt
       have hl' : (acc.set o (absOf p)).length = vs.length := by simp [hl]
       have hw' : ∀ o' ∈ orders, (acc.set o (absOf p))[o']? = some Pat.wild := by
         intro o' ho'
@@ -289,7 +285,7 @@ theorem lowerObj_correct (sig : Sig) : ∀ (orders : List Nat) (es : List CPat) 
         rw [List.getElem?_set_ne hne]
         exact hw o' (List.mem_cons_of_mem _ ho')
       obtain ⟨b', hb', hm'⟩ := lowerObj_correct sig orders es tys vs (acc.set o (absOf p))
-        hty.2 hnd' hnds.2 hv hl' hw'
+        hty.2 hnd' hv hl' hw'
       have hset := pmatchAll_set acc vs o (absOf p) x hl (hw o List.mem_cons_self) hx
       refine ⟨pmatch (absOf p) x && b', ?_, ?_⟩
       · simp only [lowerObj]
@@ -298,19 +294,16 @@ theorem lowerObj_correct (sig : Sig) : ∀ (orders : List Nat) (es : List CPat) 
       · simp only [absObj]
         rw [hm', hset, Bool.and_assoc]
 theorem lowerOr_correct (sig : Sig) : ∀ (ps : List CPat) (t : Nat) (v : Val),
-    cpatTyAll sig ps t = true → noDupFieldsL ps = true → hasTy sig v t = true →
+    cpatTyAll sig ps t = true → hasTy sig v t = true →
     evalCode (lowerOr ps) v = some (pmatchAny (absAll ps) v)
-  | [], _, _, _, _, _ => by simp [lowerOr, evalCode, absAll, pmatchAny]
-  | [p], t, v, hty, hnd, hv => by
+  | [], _, _, _, _ => by simp [lowerOr, evalCode, absAll, pmatchAny]
+  | [p], t, v, hty, hv => by
     simp only [cpatTyAll, Bool.and_eq_true] at hty
-    simp only [noDupFieldsL, Bool.and_eq_true] at hnd
-    simp [lowerOr, absAll, pmatchAny, lowerPat_correct sig p t v hty.1 hnd.1 hv]
-  | p :: q :: ps, t, v, hty, hnd, hv => by
+    simp [lowerOr, absAll, pmatchAny, lowerPat_correct sig p t v hty.1 hv]
+  | p :: q :: ps, t, v, hty, hv => by
     simp only [cpatTyAll, Bool.and_eq_true] at hty
-    simp only [noDupFieldsL, Bool.and_eq_true] at hnd
-    have hp := lowerPat_correct sig p t v hty.1 hnd.1 hv
-    have hr := lowerOr_correct sig (q :: ps) t v
-      (by simp [cpatTyAll, hty.2.1, hty.2.2]) (by simp [noDupFieldsL, hnd.2.1, hnd.2.2]) hv
+    have hp := lowerPat_correct sig p t v hty.1 hv
+    have hr := lowerOr_correct sig (q :: ps) t v (by simp [cpatTyAll, hty.2.1, hty.2.2]) hv
     simp only [lowerOr, evalCode, hp, absAll, pmatchAny]
     simp only [absAll] at hr
     cases pmatch (absOf p) v with
@@ -346,7 +339,7 @@ theorem patTy_mkOr (sig : Sig) (l : List Pat) (t : Nat) : patTy sig (mkOr l) t =
 mutual
 theorem absOf_typed (sig : Sig) : ∀ (p : CPat) (t : Nat), cpatTy sig p t = true →
     patTy sig (absOf p) t = true
-  | .id, _, _ => by simp [absOf, patTy]
+  | .id _, _, _ => by simp [absOf, patTy]
   | .wild, _, _ => by simp [absOf, patTy]
   | .tuple n es, t, h => by
     simp only [cpatTy] at h
@@ -365,7 +358,7 @@ theorem absOf_typed (sig : Sig) : ∀ (p : CPat) (t : Nat), cpatTy sig p t = tru
       simp only [hs, Bool.and_eq_true, decide_eq_true_eq] at h
       have hw : patTys sig (wilds n) (fs.map (fun f => f.2)) = true := by
         have := patTys_wilds sig (fs.map (fun f => f.2))
-        simpa [h.1] using this
+        simpa [h.1.1] using this
       simp [absOf, patTy, ctorFields, hs, absObj_typed sig orders es _ _ h.2 hw]
   | .variant c args, t, h => by
     simp only [cpatTy] at h
@@ -414,7 +407,7 @@ end
 mutual
 theorem lowerCrash_typed (sig : Sig) : ∀ (p : CPat) (t : Nat), cpatTy sig p t = true →
     lowerCrash p = false
-  | .id, _, _ => by simp [lowerCrash]
+  | .id _, _, _ => by simp [lowerCrash]
   | .wild, _, _ => by simp [lowerCrash]
   | .tuple n es, t, h => by
     simp only [cpatTy] at h
@@ -436,6 +429,7 @@ theorem lowerCrash_typed (sig : Sig) : ∀ (p : CPat) (t : Nat), cpatTy sig p t 
       simp only [hs, Bool.and_eq_true, decide_eq_true_eq] at h
       have hlt := cobjTy_lt sig _ orders es h.2
       simp only [List.length_map] at hlt
+      have hn := h.1.1
       have hany : orders.any (fun o => decide (n ≤ o)) = false := by
         simp only [List.any_eq_false, decide_eq_true_eq]
         intro o ho
@@ -481,14 +475,13 @@ end
 /-! ### the if/else chain of `lower_match` -/
 
 theorem runMatchFrom_of_exists (sig : Sig) (t : Nat) (v : Val) (hv : hasTy sig v t = true) :
-    ∀ (arms : List CPat) (k : Nat), cpatTyAll sig arms t = true → noDupFieldsL arms = true →
+    ∀ (arms : List CPat) (k : Nat), cpatTyAll sig arms t = true →
     (∃ a ∈ abstractArms arms, pmatch a v = true) →
     ∃ i, k ≤ i ∧ i < k + arms.length ∧ runMatchFrom (lowerMatch arms) k v = .arm i
-  | [], _, _, _, h => by simp [abstractArms] at h
-  | p :: ps, k, hty, hnd, h => by
+  | [], _, _, h => by simp [abstractArms] at h
+  | p :: ps, k, hty, h => by
     simp only [cpatTyAll, Bool.and_eq_true] at hty
-    simp only [noDupFieldsL, Bool.and_eq_true] at hnd
-    have hp := lowerPat_correct sig p t v hty.1 hnd.1 hv
+    have hp := lowerPat_correct sig p t v hty.1 hv
     simp only [lowerMatch, List.map_cons, runMatchFrom, hp]
     cases hm : pmatch (absOf p) v with
     | true => exact ⟨k, Nat.le_refl _, by simp, rfl⟩
@@ -500,7 +493,7 @@ theorem runMatchFrom_of_exists (sig : Sig) (t : Nat) (v : Val) (hv : hasTy sig v
         rcases ha with rfl | ha
         · rw [hm] at hma; cases hma
         · exact ⟨a, ha, hma⟩
-      obtain ⟨i, h1, h2, h3⟩ := runMatchFrom_of_exists sig t v hv ps (k + 1) hty.2 hnd.2 h'
+      obtain ⟨i, h1, h2, h3⟩ := runMatchFrom_of_exists sig t v hv ps (k + 1) hty.2 h'
       refine ⟨i, by omega, by simp only [List.length_cons]; omega, ?_⟩
       simpa [lowerMatch] using h3
 
